@@ -47,13 +47,13 @@ PROFILES = {
     "C18": ("mixed", "transport", "buffers", "classic"),
     "C01": ("mixed", "full", "buffers", "stoch"),
     "C02": ("full", "stoch", "mixed", "full"),
-    "C03": ("mixed", "buffers", "transport", "full"),
-    "C05": ("mixed", "buffers", "full", "stoch"),
-    "C07": ("transport", "buffers", "full", "stoch"),
-    "C08": ("buffers", "buffers", "full", "mixed"),
+    "C03": ("mixed", "buffers", "race", "full", "race"),
+    "C05": ("mixed", "buffers", "full", "stoch", "race"),
+    "C07": ("transport", "buffers", "full", "stoch", "race"),
+    "C08": ("buffers", "race", "full", "race"),
     "C09": ("full", "stoch", "full", "mixed"),
     "C10": ("full", "stoch", "full", "full"),
-    "C11": ("transport", "buffers", "full", "mixed"),
+    "C11": ("transport", "buffers", "full", "race"),
     "C12": ("mixed", "full", "transport", "stoch"),
     "C20": ("mixed", "full", "buffers", "transport"),
 }
